@@ -87,10 +87,21 @@ def sweep_plan(job, variant, chunk):
     return lines
 
 
+def _js(v):
+    if isinstance(v, float) and v.is_integer() and abs(v) < 2 ** 53:
+        return int(v)
+    if isinstance(v, dict):
+        return {k: _js(x) for k, x in v.items()}
+    if isinstance(v, list):
+        return [_js(x) for x in v]
+    return v
+
+
 def sweep(ctx, budget):
     """restore(save s) = s for every entity class of every shipped skill: each skill is cast and left running,
     the engine is replaced by a freshly reloaded one after EVERY command (JSON and in-memory alternately) and the
     logs must equal the uninterrupted run's."""
+    from simaple.simulate.policy.base import OperationLog
     findings, runs = [], 0
     for job in simenv.JOBS:
         for variant in ([0, 1, 2] if ctx.thorough else [1]):
@@ -114,6 +125,26 @@ def sweep(ctx, budget):
                         r = simenv.make_engine(job, variant)
                         r.reload(logs)
                     res = ec.norm_logs(list(r.operation_logs()))
+                    # the same, with the recorded logs re-spelled by a JSON writer that prints whole floats as integers (JavaScript: 720.0 ->
+                    # 720).  Values survive, bytes do not; the hash of a recorded log is defined over its bytes, so the hash CHAIN is not
+                    # compared here - the log each command produces is, byte for byte (dump without checkpoints) and value for value
+                    # (checkpoints): an integer that leaks from a restored event into a new action shows up as `720` against `720.0`
+                    e_logs = list(e.operation_logs())
+                    r2 = simenv.make_engine(job, variant)
+                    for k, c in enumerate(cmds):
+                        r2.exec(c)
+                        logs2 = list(r2.operation_logs())
+                        a, b = logs2[-1], e_logs[k + 1]
+                        if a._fast_dumped_string() != b._fast_dumped_string() or \
+                                [pl.checkpoint.model_dump() for pl in a.playlogs] != [pl.checkpoint.model_dump() for pl in b.playlogs]:
+                            findings.append({"job": job, "variant": variant, "plan": lines, "cut": "reload after every command, recorded logs "
+                                             "re-spelled by a JSON writer that prints whole floats as integers", "first_differing_log": k + 1,
+                                             "command_at_difference": lines[k], "resumed": a._fast_dumped_string()[:600],
+                                             "uninterrupted": b._fast_dumped_string()[:600]})
+                            break
+                        logs2 = [OperationLog.model_validate(json.loads(json.dumps(_js(json.loads(l.model_dump_json()))))) for l in logs2]
+                        r2 = simenv.make_engine(job, variant)
+                        r2.reload(logs2)
                 except Exception as ex:
                     findings.append({"job": job, "variant": variant, "plan": lines, "what": "exception %r" % ex})
                     continue
